@@ -658,7 +658,8 @@ BOUNDS = dict(
     thorough='26 objects incl. 2-dim, covariate and heterogeneous population '
              'models, 4-parameter mechanistic model, two-output likelihood; '
              '<= 700 transitions per object',
-    outside='ProblemModellingController.fix_parameters (needs a pandas data '
-            'set); population-level predictive models (covered for the wrapped '
+    outside='ProblemModellingController.fix_parameters here (its histories '
+            'of fix / re-fix / release calls are decided in C14 against the '
+            'posterior assembled by hand); population-level predictive models (covered for the wrapped '
             'sub-models only); SBML-backed ReducedMechanisticModel (C09/C11)')
 TRUSTED = ['z3', 'RNG stub', 'the unfixed objects as reference (C01, C04, C05)']
